@@ -506,6 +506,11 @@ Value Search::search(Position& position, Depth depth, Value alpha, Value beta,
         if (doFutilityPruning && moveIsQuiet
                 && !position.move_gives_check(move))
         {
+            // the skipped move is assumed to stay below alpha by the margin: keep a
+            // real (non-mate) bound instead of -infinity / a mate score
+            const Value futilityValue = info->_static_eval +
+                (depth == 1 ? FUTILITY_DEPTH_1_MARGIN : FUTILITY_DEPTH_2_MARGIN);
+            bestValue = std::max(bestValue, futilityValue);
             continue;
         }
 
